@@ -12,7 +12,7 @@ for d in sorted(glob.glob(os.path.join(V, "seeded", "C*-*"))):
     c = j.get("check", {})
     summ = (j.get("summary") or "").replace("\n", " ").replace("|", "/")
     needs = (j.get("needs") or "").replace("\n", " ").replace("|", "/")
-    how = "superseded by a later laspy repair (no longer breaks the property)" if j.get("superseded") else "VIOLATION with failing input" if c.get("with_failing_input") else ("VIOLATION no-failing-input-found" if c.get("detected") else "MISSED")
+    how = "judged not a violation of the property as stated (check silent by design)" if j.get("not_a_violation") else "superseded by a later laspy repair (no longer breaks the property)" if j.get("superseded") else "VIOLATION with failing input" if c.get("with_failing_input") else ("VIOLATION no-failing-input-found" if c.get("detected") else "MISSED")
     viol = c.get("violation_lines") or []
     kind = ""
     if c.get("replay_excerpt"):
